@@ -301,6 +301,7 @@ type H struct {
 	retried     int
 
 	threadFailures int
+	repeated       int // modelled calls made a second time (same answer required)
 
 	stats   map[string]*decStats // per decoder: input sizes, outcome classes, error kinds
 	conds   map[string]*[2]int   // per comparison of the Go code on its input: times true / false
@@ -388,15 +389,24 @@ func (h *H) one(kind string, req request, recipe string) {
 		return
 	}
 	var pre1, pre2 []byte
-	if req.Dec == dACMInfo {
+	if req.Dec == dACMInfo || req.Dec == dParseACMAfter {
 		// the inputs of the model (UserArea, serialised module) come from the fiano front end;
 		// they are fetched first so that they survive a crash of the measured call
-		sp, st, _ := h.sup.do(request{Dec: dACMSplit, In1: req.In1})
+		var saux []int64
+		if req.Dec == dParseACMAfter {
+			saux = []int64{1} // ANC modules too
+		}
+		sp, st, _ := h.sup.do(request{Dec: dACMSplit, Aux: saux, In1: req.In1})
 		if st != stReply || sp.Class == clsSkip {
 			h.skipped++
 			return
 		}
 		pre1, pre2 = sp.Extra1, sp.Extra2
+		if req.Dec == dParseACMAfter {
+			st, _ := strconv.Atoi(sp.Msg)
+			req.Aux = []int64{int64(st)}
+			h.cond("ParseACM/ANC module (no info tables)", st&2 != 0)
+		}
 	}
 	t0 := time.Now()
 	rep, status, detail := h.call(req)
@@ -444,7 +454,7 @@ func (h *H) one(kind string, req request, recipe string) {
 	ci := -1
 	modelled := req.Dec < 100
 	m1, m2 := req.In1, req.In2
-	if req.Dec == dACMInfo {
+	if req.Dec == dACMInfo || req.Dec == dParseACMAfter {
 		m1, m2 = pre1, pre2
 	}
 	lit1 := ""
@@ -489,6 +499,18 @@ func (h *H) one(kind string, req request, recipe string) {
 		ci = c.Add(kind, lit, descr, len(req.In1) > 0)
 	} else {
 		c.Count(kind + " (oracle only)")
+	}
+
+	// histories: every fourth modelled call is made a second time in the same child; a decoder is a
+	// function of its input, so the answer must be the same (the model is run once per case)
+	if modelled && (class == "Ok" || class == "Err") && ci >= 0 && ci%4 == 0 {
+		rep2, status2, _ := h.call(req)
+		h.repeated++
+		if status2 != stReply || rep2.Class != rep.Class || rep2.Summary != rep.Summary {
+			h.unknown[req.Dec]++
+			c.OracleFail(ci, fmt.Sprintf("%s: the same call in the same process gave a different answer the second time (class %d -> %d): the result depends on an earlier call", name, rep.Class, rep2.Class), name, descr)
+			return
+		}
 	}
 
 	// the PEM block loops: the pem.Decode calls on the same bytes, and where the loop left
@@ -1006,6 +1028,19 @@ func main() {
 			}
 			h.run("ParseACMInfo/mutated", dACMInfo, nil, m, nil, name+" reduced, "+r)
 		}
+		// ParseACMInfo twice on ONE object, and ParseACM with every module subtype (ANC modules have no info tables)
+		h.run("ParseACMInfo/reused-object", dACMInfo, []int64{1}, small, nil, name+" reduced to 0x600 bytes, ParseACMInfo called twice on the same ACM")
+		for i := 0; i < q(4, 40); i++ {
+			m, r := h.lenMutation(small, 0, []int{0x4f0, 0x504, 0x514, 0x538}[h.c.Rng.Intn(4)])
+			h.run("ParseACMInfo/reused-object", dACMInfo, []int64{1}, m, nil, name+" reduced, "+r+", ParseACMInfo called twice on the same ACM")
+		}
+		for _, st := range []uint16{0, 1, 2, 3, 4, 0xfffd, 0xffff} {
+			m := clone(small)
+			binary.LittleEndian.PutUint16(m[2:], st)
+			h.run("ParseACM/subtype", dParseACMAfter, nil, m, nil, fmt.Sprintf("%s reduced to 0x600 bytes, ModuleSubType := %#x", name, st))
+			m2, r := h.lenMutation(m, 0, []int{0x4c0 + 20, 0x4f0, 0x504}[h.c.Rng.Intn(3)])
+			h.run("ParseACM/subtype", dParseACMAfter, nil, m2, nil, fmt.Sprintf("%s reduced, ModuleSubType := %#x, %s", name, st, r))
+		}
 		// every count field of the info tables at the wrap-around points of fixed-width products
 		h.wrapACM(name, full, small, q(60, 1000), q(30, 300), q(4, 60))
 		// ParseACM on the whole file (fiano front end): oracle only
@@ -1497,6 +1532,7 @@ func main() {
 	c.Rep.Extra["max_alloc_per_decoder"] = h.maxAlloc
 	c.Rep.Extra["child_restarts"] = h.sup.starts - 1
 	c.Rep.Extra["not_reached"] = h.skipped
+	c.Rep.Extra["calls_repeated_same_answer"] = h.repeated
 	c.Rep.Extra["child_thread_start_failures_retried"] = h.threadFailures
 	c.Rep.Extra["timeouts_not_confirmed"] = h.retried - len(h.hangs)
 	c.Rep.Extra["seconds_per_decoder"] = h.seconds
